@@ -27,43 +27,43 @@ CHECKS = {
          'Thorough: the complete operand product of all 66 base mnemonics through the encoder API (about 2.5e8 tuples, exhaustive: true) plus 3e6 generated source lines in random documented spellings; quick: every operand complete on its own with the others sampled. Each word must equal the reference encoding, which is self-tested to round-trip through the reference decoder, so equality means "decodes to the same operation and operands" and gives one-to-one.',
          'trusted: vlib/rvref.py enc32/dec32 (cross-checked once against the 685 pinned vectors of the repository tests)', '4 C01'),
  'C02': ('exploration', 'exhaustive enumeration: all c.* operand tuples in a wide window (forward) and all 65,536 halfwords (reverse) against an RV32C legality/decoding table',
-         'Both directions are complete in both tiers: every accepted tuple must decode to the same legal instruction; the canonical text of each of the 28,461 legal non-hint halfwords must assemble back to it; counts must match.',
+         'Both directions are complete in both tiers: every accepted tuple must decode to the same legal instruction; the canonical text of each of the 28,461 legal non-hint halfwords must assemble back to it (also through register-alias constants, with upper-case mnemonics and imm(reg) syntax, and with immediates written as arithmetic); counts must match. The forward sweep runs again in python -O children.',
          'trusted: vlib/rvref.py dec16/enc16 transcribed from the RVC chapter', '4 C02'),
  'C06': ('exploration', 'boundary enumeration of every operand of every mnemonic against a three-valued accept/refuse/either table, API and text',
-         'Every operand of the 93 mnemonics is probed over [lo-2*span, hi+2*span] in all residues plus +-2^k+-1 up to 2^33, all register numbers -2..40 and bad spellings; accepted values must encode exactly as the reference, unrepresentable ones must raise; plus a systematic sweep of every compression-candidate register setting x a dense immediate window through the text front end with -c. Complete over that window.',
+         'Every operand of the 93 mnemonics is probed over [lo-2*span, hi+2*span] in all residues plus +-2^k+-1 up to 2^33, all register numbers -2..40 and bad spellings; accepted values must encode exactly as the reference, unrepresentable ones must raise; plus a systematic sweep of every compression-candidate register setting x a dense immediate window through the text front end with -c. All c.* and 13 base mnemonics again in python -O children; text probes also in the imm(reg) syntax and with legal values plus multiples of 2^32. Complete over that window.',
          'trusted: the three-valued table in checks/c06.py (ISA manual + docs); EITHER for CSR >= 0x800, odd jalr offsets, unsigned c.lui spelling', '4 C06'),
  'C10': ('exploration', 'seeded boundary-value generation of data lines, Hypothesis strings and include_bytes file trees against own byte images',
-         'Data directives of every width with values at, just outside and far outside both range ends in three number bases; strings with non-ASCII text and all documented escapes; include_bytes files found adjacent / via -i / in sub-directories from four working directories incl. a decoy.',
+         'Data directives of every width with values at, just outside and far outside both range ends in three number bases; strings with non-ASCII text and all documented escapes; include_bytes files found adjacent / via -i / in sub-directories / behind symlinkdir/.. from four working directories incl. a decoy, mixed-case names with lower-case twins; strings also from UTF-8 files, with CR LF / CR-only line ends, quoted characters and text that is not stable under Unicode normalisation.',
          'trusted: int.to_bytes images, own escape processor (vlib/ir.py unescape)', '4 C10'),
  'C11': ('exploration', 'Hypothesis expression trees + metamorphic substitution (constants vs literal values), all printable character literals',
          'Constants dict compared with an own evaluator; every program is also rendered with values/registers written literally and must give identical bytes and labels in both compression modes.',
          'trusted: own expression evaluator in vlib/ir.py (Python integer semantics)', '4 C11'),
  'C12': ('exploration', 'Hypothesis-generated IR programs, differential: outcome without -c vs with -c',
-         'Programs biased to RVC operand-set edges with constants / aliases / label-dependent immediates; any program accepted without -c must be accepted with -c. One genuine defect is recorded as a known finding (a label-dependent operand that is representable only in the uncompressed layout; narrow signature only_with_c:layout_dependent_operand, see DESIGN.md section 5); every other -c-only refusal is a violation.',
+         'Programs biased to RVC operand-set edges with constants / aliases / label-dependent immediates; any program accepted without -c must be accepted with -c. One genuine defect is recorded as a known finding (a label-dependent operand that is representable only in the uncompressed layout; narrow signature only_with_c:layout_dependent_operand, see DESIGN.md section 5); every other -c-only refusal is a violation. Plus systematic probes: call / tail / j / jal / beqz / bne to constant addresses round the range edges behind 13 kinds of shrinking code.',
          'generator soundness rules of DESIGN.md 2.2', '4 C12'),
  'C13': ('exploration', 'Hypothesis-generated IR programs rendered in a canonical and in 4 drawn spelling styles (metamorphic)',
          'The listed rewrites are applied independently per line and operand; bytes, label table and outcome class must equal the canonical rendering.',
          'renderer applies only rewrites the docs list and never where the docs exclude them', '4 C13'),
  'C14': ('exploration', 'Hypothesis-generated include trees on disk vs own splicer, across working directories (API and CLI)',
-         'A generated program is cut into nested include files placed in same/sub/parent/sibling/-i directories; result must equal the spliced flat text regardless of cwd (incl. a cwd full of decoys).',
+         'A generated program is cut into nested include files placed in same/sub/parent/sibling/-i directories; result must equal the spliced flat text regardless of cwd (incl. a cwd full of decoys). Names with ./ prefixes and mixed case, files without final newline, comments glued to the include name, ancestor-directory decoys, include_bytes entries, the same file included twice.',
          'own splicer; precedence between adjacent and -i files is undocumented, either accepted', '4 C14'),
  'C15': ('exploration', 'Hypothesis: valid generated program + one planted fault (140 texts, 12 classes, operand mutations) at a drawn position/include depth, API and CLI; plus coverage-guided byte-level fuzzing of assemble() with atheris/libFuzzer',
          'Whenever the faulty program is refused the error must be AssemblerError carrying the real path and 1-based line of the planted line; CLI exit 1 with File/line and no traceback. Fuzzed source texts must be assembled or refused with AssemblerError naming a line inside the text; any other exception is re-run in the repository interpreter, minimised and reported.',
          'a fault the assembler does not refuse leaves the premise false and is counted; the fuzz part runs under python3-vt (atheris) and is skipped, with a note in the evidence, when that interpreter is missing; resource-limit errors from absurd alignments are excluded and counted', '4 C15'),
  'C16': ('exploration', 'Hypothesis RuleBasedStateMachine over call histories vs one fresh interpreter per (program, options) under varying PYTHONHASHSEED',
-         'Histories of assemble() calls on a pool of programs (failing ones included, shared name space, caller dictionaries reused and scribbled) must agree call by call with fresh-process references; module tables and earlier results must stay untouched. Programs live in files in two source directories with shared and same-named includes; further rules reuse dictionaries filled by earlier calls, hand over a labels dictionary left over from another program, rewrite source files between calls and share one include_dirs list.',
+         'Histories of assemble() calls on a pool of programs (failing ones included, shared name space, caller dictionaries reused and scribbled) must agree call by call with fresh-process references; module tables and earlier results must stay untouched. Programs live in files in two source directories with shared and same-named includes; further rules reuse dictionaries filled by earlier calls, hand over a labels dictionary left over from another program, rewrite source and included files between calls (an included file may disappear and come back), share one include_dirs list, assemble source TEXT from several working directories, and build sibling programs (label names permuted) with the dictionary the other one filled; objects returned earlier keep their bytes.',
          'fresh interpreter per (program, options) is the reference', '4 C16'),
  'C17': ('exploration', 'Hypothesis option/program combinations run as subprocesses of the real entry point in scratch directories with pre-existing outputs',
-         'Success: -o == assemble(), -l parses to the label table, .hex (own Intel HEX reader) == bytes at offset; failure from every pass: exit != 0 and the directory byte-identical.',
+         'Success: -o == assemble(), -l parses to the label table, .hex (own Intel HEX reader) == bytes at offset; failure from every pass: exit != 0 and the whole scratch tree byte-identical. Program in the cwd / a subdirectory / elsewhere / behind a symbolic link, -i absolute or relative with odd directory names, -o names ending in .hex, rebuild over an identical -o file, -v.',
          'own Intel HEX reader vlib/ihex.py; unwritable paths not generated', '4 C17'),
  'C18': ('exploration', 'Hypothesis lengths/contents/busy schedules against a simulated DfuSe device with a harness-owned virtual clock',
-         'dfu.cli_main() runs in-process against vlib/dfusim.py; final flash, erase-before-write, address range, poll delays honoured and protocol order are checked for every generated run (thorough: also every length 0..16384).',
+         'dfu.cli_main() runs in-process against vlib/dfusim.py; final flash, erase-before-write, address range, poll delays honoured and protocol order are checked for every generated run (thorough: also every length 0..16384); firmware through symbolic links, with DFU file suffixes, serial numbers with every tail, 12 fixed runs in a python -O child.',
          'trusted: vlib/dfusim.py device model (DFU 1.1 + DfuSe)', '4 C18'),
  'C19': ('fault_enumeration', 'complete enumeration of single error injections (step x status x device behaviour) + drawn doubles + all oversize lengths against the simulated device',
-         'Every single injection point of runs of 1, 2, 3 and 16 pages x status 1..15 x {spec-conformant, lenient} device, and every oversize length size+1..size+2048: never done!, never exit 0, failure named; oversize never reaches the device.',
+         'Every single injection point of runs of 1, 2, 3 and 16 pages x status 1..15 x {spec-conformant, lenient} device, and every oversize length size+1..size+2048: never done!, never exit 0, failure named; oversize never reaches the device. Also with the device found in dfuERROR at the start, oversize files behind symbolic links, no device / unknown density letter / other device id.',
          'trusted: vlib/dfusim.py; an escaping USB error counts as non-zero exit', '4 C19'),
  'C20': ('exploration', 'exhaustive eligibility enumeration (expansion of every legal RVC halfword) + Hypothesis programs for monotonicity',
-         'All 28,461 expansions written as literal text in two spellings must come out in 16 bits with -c (exhaustive); generated programs never grow, no label moves up under -c, and every literal-operand instruction inside a generated program whose meaning is in the eligibility set is 16 bits (eligibility in context).',
+         'All 28,461 expansions written as literal text in four spellings (incl. upper-case mnemonics) must come out in 16 bits with -c (exhaustive), likewise a grid of li values and every instruction of a literal pseudo-instruction expansion; generated programs never grow, no label moves up under -c, and every literal-operand instruction inside a generated program whose meaning is in the eligibility set is 16 bits (eligibility in context).',
          'trusted: vlib/rvref.py expand16', '4 C20'),
 }
 
